@@ -78,13 +78,20 @@ def gen_cases(seed, n_grammars, n_strings, gen_kwargs=None, all_offsets=True, ma
     return out
 
 
-def eval_py(P, mode, gcases):
-    """Runs the real code; returns per grammar (wire grammar lines, [(s, i, query line, outcome)])."""
+def eval_py(P, mode, gcases, text_route=False):
+    """Runs the real code; returns per grammar (wire grammar lines, [(s, i, query line, outcome)]).
+    The model grammar is encoded from the AST, not from the library's objects.  With text_route every
+    other grammar is built by rendering it as ABNF text and loading it through the library's reader."""
     res = []
-    for gr, cases in gcases:
-        cls, rules = G.build(P, gr)
-        enc = lib.Encoder(P, rules)
-        glines = enc.grammar_lines()
+    for gi, (gr, cases) in enumerate(gcases):
+        built = None
+        if text_route and gi % 2 == 1:
+            try:
+                built = G.build_from_text(P, gr)
+            except ValueError:
+                built = None
+        cls, rules = built if built is not None else G.build(P, gr)
+        glines = G.grammar_wire(gr)
         exp = []
         for s, i in cases:
             pys = py_outcomes(P, mode, rules[0], s, i)
@@ -95,7 +102,7 @@ def eval_py(P, mode, gcases):
 
 
 def run(ctx, P, mode, n_grammars, n_strings, seed, gen_kwargs=None, all_offsets=True, maxlen=10,
-        depth=3, max_report=5, precomputed=None):
+        depth=3, max_report=5, precomputed=None, text_route=False):
     """Returns (info, disagreements)."""
     gcases = gen_cases(seed, n_grammars, n_strings, gen_kwargs, all_offsets, maxlen, depth)
     grammars = [g for g, _ in gcases]
@@ -104,7 +111,7 @@ def run(ctx, P, mode, n_grammars, n_strings, seed, gen_kwargs=None, all_offsets=
     for gr in grammars:
         for k, v in G.grammar_stats(gr).items():
             opmix[k] += v
-    evald = precomputed if precomputed is not None else eval_py(P, mode, gcases)
+    evald = precomputed if precomputed is not None else eval_py(P, mode, gcases, text_route=text_route)
     blocks = [glines + [line for _, _, line, _ in exp] for glines, exp in evald]
     expected = [exp for _, exp in evald]
     outs = lib.run_driver_parallel(blocks)
@@ -172,8 +179,7 @@ def shrink(P, mode, d, max_rounds=30):
             cls, rules = G.build(P, gr)
         except Exception:
             return None
-        enc = lib.Encoder(P, rules)
-        lines = enc.grammar_lines()
+        lines = G.grammar_wire(gr)
         cl = case_lines(mode, s, i)
         pys = py_outcomes(P, mode, rules[0], s, i)
         out = lib.run_driver(lines + cl)
